@@ -738,14 +738,22 @@ class _ParseFunction(_nt('_ParseFunction', 'func, args, kwargs')):
 
 
 def _same_types(a, b):
-    if type(a) is not type(b):
+    # (Written without "type", "all" and "map": a grammar may define rules with
+    # these names, and rules are globals of the generated module.)
+    if a.__class__ is not b.__class__:
         return False
     if isinstance(a, (list, tuple)):
-        return len(a) == len(b) and all(map(_same_types, a, b))
-    if isinstance(a, dict):
-        return len(a) == len(b) and all(
-            k in b and _same_types(v, b[k]) for k, v in a.items()
-        )
+        if len(a) != len(b):
+            return False
+        for i, x in enumerate(a):
+            if not _same_types(x, b[i]):
+                return False
+    elif isinstance(a, dict):
+        if len(a) != len(b):
+            return False
+        for k, v in a.items():
+            if k not in b or not _same_types(v, b[k]):
+                return False
     return True
 
 
